@@ -22,10 +22,24 @@ JudgeFrame(e) ==
        THEN PrintT(<<"REJECT", e.id, l, "C16.frame-is-self-describing", f.errs>>) ELSE TRUE
     /\ IF f.errs = {} /\ (InterleaveFrame(f) # e.samples \/ f.hdr.rate # e.rate \/ f.hdr.nch # e.channels \/ f.hdr.bps # e.bps)
        THEN PrintT(<<"REJECT", e.id, l, "C16.frame-decodes-from-its-own-header">>) ELSE TRUE
+\* one writer, several frames, refused calls in between: the output is exactly the accepted frames, each decodable from its own
+\* header, numbered 0, 1, 2, ... (RFC 9639: the coded number of a fixed-blocksize stream is the frame number)
+JudgeSequence(e) ==
+    LET fs == FramesFrom(e.bytes, 0, NoSI, <<>>)
+        n == Len(e.accepted)
+        Bad(i) == \/ fs[i].errs # {}
+                  \/ fs[i].hdr.num.val # i - 1 \/ fs[i].hdr.variable
+                  \/ InterleaveFrame(fs[i]) # e.accepted[i].samples
+                  \/ fs[i].hdr.rate # e.accepted[i].rate \/ fs[i].hdr.nch # e.accepted[i].channels \/ fs[i].hdr.bps # e.accepted[i].bps
+    IN /\ IF e.panicked THEN PrintT(<<"REJECT", e.id, l, "C16.no-panic">>) ELSE TRUE
+       /\ IF Len(fs) # n \/ (n > 0 /\ fs[Len(fs)].next # Len(e.bytes)) \/ \E i \in 1..(IF Len(fs) < n THEN Len(fs) ELSE n) : Bad(i)
+          THEN PrintT(<<"REJECT", e.id, l, "C16.one-writer-emits-the-accepted-frames-numbered-from-0",
+                        [i \in 1..Len(fs) |-> IF fs[i].errs = {} THEN fs[i].hdr.num.val ELSE -1]>>) ELSE TRUE
 Init == l = 1
 Next == /\ l <= Len(Rec) /\ l' = l + 1
         /\ LET e == Rec[l] IN
-           IF e.ev = "arr" THEN JudgeArr(e) ELSE IF e.ev = "frame" THEN JudgeFrame(e) ELSE TRUE
+           IF e.ev = "arr" THEN JudgeArr(e) ELSE IF e.ev = "frame" THEN JudgeFrame(e)
+           ELSE IF e.ev = "sequence" THEN JudgeSequence(e) ELSE TRUE
 Spec == Init /\ [][Next]_l
 Post == IF TLCGet("stats").diameter - 1 = Len(Rec) THEN PrintT(<<"TRACE-DONE", Len(Rec)>>)
         ELSE PrintT(<<"TRACE-INCOMPLETE", TLCGet("stats").diameter, Len(Rec)>>)
